@@ -23,6 +23,10 @@ RULE = ("engines with 2 inputs, 1-2 outputs (integral or weighted defuzzifier, w
         "output is enumerated exhaustively, two blocks / two outputs sampled; finite input rows.  Rule texts handed to Rule.parse / "
         "Rule.create / `rule.text =` in varied white-space layouts (tabs, runs of blanks, line breaks before / after a "
         "connective, margins, trailing comment): enumerated styles x missing-operator subsets, and random layouts.  "
+        "Histories on ONE engine (drawn last): is_ready + process, an in-place edit (rule text re-written through rule.text / "
+        "parse with or without reload, operator set / removed, defuzzifier swapped between integral / weighted / none, aggregation, "
+        "rules loaded late / unloaded / restart(), enabled flags, rules added / removed), is_ready + process again: every single "
+        "edit x missing-operator subsets enumerated, random histories of 1-4 edits; every moment against the model and the oracle.  "
         "non-trivial: the model reports "
         "at least one readiness error or a processing error; distinct = distinct abstract configuration")
 ASSUMPTIONS = ["operators are detected in the text by the substring tests of the code (' and ', ' or '); antecedent texts ASSIGNED "
